@@ -168,8 +168,6 @@ Proof.
   destruct (permuted_rows_spec _ _ _ Hp) as [Hplen [Hpin Hcells]].
   assert (Hcss : css = map cells prow) by (unfold css; symmetry; exact Hcells).
   rewrite combine_map_self, tl_map in Hem.
-  assert (Hrowsok : Forall (fun r => cells r <> [] /\ last r 0 <= 0) prow).
-  { rewrite Forall_forall in *. intros r Hr. split; [apply Hne; auto|apply Hwild; apply Hpin; auto]. }
   apply error_max_from_Q in Hem; auto; [|apply Forall_tl; auto].
   destruct Hem as [Em0 [Em1 [es [HF Ees]]]].
   assert (HO : OO = Zsum (offs_of g css)) by (unfold OO; rewrite Hoff, Hcss; reflexivity).
